@@ -791,6 +791,19 @@ impl<'a, 'b> Renderer<'a, 'b> {
             }
             D::Union(ms) => self.union(ms, path),
             D::Inter(ms) => {
+                // now and then the whole intersection is handed to the semantic engine: Exclude<X | (A & B), X> with a record X
+                // that no member is assignable to
+                let through_engine = self.in_generic_def.is_none()
+                    && self.cfg.has(Feat::Exclude)
+                    && self.sem_safe(d)
+                    && self.s.chance(1, 6)
+                    // (plain object members only - named or in place -: with records or nullable members the engine's
+                    // listed findings about intersections of records come into play)
+                    && ms.iter().all(|m| matches!(Ref::new(self.env, Mode::Open).head(m), D::Object { index: None, .. }))
+                    && crate::csem::pair_features(self.env, d, d).is_empty();
+                if through_engine {
+                    self.engine_operand += 1;
+                }
                 let mut parts = vec![];
                 let mut part_members: Vec<Option<Vec<(String, bool, String)>>> = vec![];
                 for (i, m) in ms.iter().enumerate() {
@@ -839,6 +852,12 @@ impl<'a, 'b> Renderer<'a, 'b> {
                 if self.cfg.has(Feat::Order) && parts.len() > 1 && self.in_generic_def.is_none() {
                     let r = self.s.below(parts.len());
                     parts.rotate_left(r);
+                }
+                if through_engine {
+                    self.engine_operand -= 1;
+                    self.mark("exclude");
+                    self.mark("exclude_record_operand");
+                    return atom(format!("Exclude<{{ zz_excl: \"x\" }} | ({}), {{ zz_excl: \"x\" }}>", parts.join(" & ")));
                 }
                 Txt { s: parts.join(" & "), p: Prec::Inter }
             }
